@@ -18,7 +18,7 @@ ASSUMPTIONS = ['core-domain inputs are exact doubles; wide formats use Python-in
                'ROUND of the reference model is trusted (cross-checked relationally by C05)']
 EXHAUSTIVE = True
 EXHAUSTIVE_SUBDOMAINS = {'quick': ['quarter-LSB grid over 3x range, n_word<=6, all n_frac, 5 roundings, wrap'], 'thorough': ['same, n_word<=7']}
-REQUIRED_CLASSES = {'wrapped': 500, 'wide': 300, 'shift-invariance': 300, 'register': 300}
+REQUIRED_CLASSES = {'wrapped': 500, 'wide': 300, 'shift-invariance': 300, 'register': 300, 'resign': 500}
 
 
 def wrap_ok(code, r, fmt):
@@ -187,7 +187,46 @@ def check_register(ctx, case):
             return
 
 
-CHECKS = {'grid': check_grid, 'wrap': check_wrap, 'wide': check_wide, 'register': check_register}
+def check_resign(ctx, case):
+    """A wrap register re-interpreted in place (only the signedness, or the word, changes): same bits modulo 2^n_word."""
+    fmt = tuple(case['fmt'])
+    s, w, f = fmt
+    ks = [int(k) for k in case['codes']]
+    w2 = int(case.get('w2', w))
+    how = case['how']
+    F = C.Fxp()
+    ctx.ev(len(ks))
+    ctx.cls('resign')
+    sig = 'resign/%s/%s' % (how, 'wide' if w >= 64 else 'core')
+
+    def do():
+        x = F(ks[0] if len(ks) == 1 else np.array(ks, dtype=object if w > 62 else np.int64), s, w, f, raw=True, overflow='wrap')
+        if how == 'sizes':
+            x.resize(not s, w2, f)
+        elif how == 'signed-only':
+            x.resize(signed=not s)
+        else:
+            x.resize(dtype=M.dtype_str(not s, w2, f))
+        return x
+    ok, x = ctx.guard(case, do, sig_prefix=sig + '/')
+    if not ok:
+        return
+    try:
+        got = C.flat(C.codes(x))
+    except ValueError as e:
+        ctx.fail(sig + '/non-integer-code', case, {'error': str(e)})
+        return
+    if C.fmt_of(x) != (not s, w2 if how != 'signed-only' else w, f):
+        ctx.fail(sig + '/format', case, {'got': C.fmt_of(x)})
+        return
+    wn = C.fmt_of(x)[1]
+    for k, g in zip(ks, got):
+        if not wrap_ok(g, k, (not s, wn, f)):
+            ctx.fail('%s/congruence/%s' % (sig, 'neg' if k < 0 else 'upper-half'), case, {'code': str(k), 'stored': str(g), 'fmt': C.fmt_of(x)})
+            return
+
+
+CHECKS = {'grid': check_grid, 'wrap': check_wrap, 'wide': check_wide, 'register': check_register, 'resign': check_resign}
 
 
 def replay(ctx, case):
@@ -312,8 +351,34 @@ def body_register(ctx, case):
     check_register(ctx, case)
 
 
+@st.composite
+def st_resign_case(draw):
+    wide = draw(st.integers(0, 3)) == 0
+    w = draw(st.sampled_from(WIDE_W)) if wide else draw(C.st_word(52, 1))
+    s = draw(st.booleans())
+    f = draw(st.sampled_from([0, 1, w // 2, w]))
+    fmt = (s, w, f)
+    n = draw(st.sampled_from([1, 1, 3]))
+    how = draw(st.sampled_from(['sizes', 'signed-only', 'dtype']))
+    w2 = w if how == 'signed-only' or draw(st.booleans()) else max(1, min(w + draw(st.integers(-3, 3)), 256))
+    if not wide:
+        w2 = min(w2, 52)
+    return {'check': 'resign', 'fmt': [s, w, f], 'codes': [draw(C.st_code(fmt)) for _ in range(n)], 'how': how, 'w2': w2}
+
+
+def body_resign(ctx, case):
+    fmt = tuple(case['fmt'])
+    lo, hi = M.rng(not fmt[0], case['w2'])
+    nt = any(not lo <= int(k) <= hi for k in case['codes'])
+    if nt:
+        ctx.nontrivial(('resign', repr(sorted((k, repr(v)) for k, v in case.items()))))
+    ctx.sample(case, nt)
+    check_resign(ctx, case)
+
+
 def task_hyp(ctx, which, n):
-    stg, body = {'wrap': (st_wrap_case, body_wrap), 'wide': (st_wide_case, body_wide), 'register': (st_register_case, body_register)}[which]
+    stg, body = {'wrap': (st_wrap_case, body_wrap), 'wide': (st_wide_case, body_wide), 'register': (st_register_case, body_register),
+                 'resign': (st_resign_case, body_resign)}[which]
     run_given(ctx, stg(), body, n, ctx.task_seed)
 
 
@@ -329,4 +394,6 @@ def tasks(tier, scale=1.0):
         out.append(('hyp-wide-%d' % i, 'task_hyp', {'which': 'wide', 'n': nh}))
     for i in range(4):
         out.append(('hyp-register-%d' % i, 'task_hyp', {'which': 'register', 'n': nh // 2}))
+    for i in range(2):
+        out.append(('hyp-resign-%d' % i, 'task_hyp', {'which': 'resign', 'n': nh}))
     return out
